@@ -198,7 +198,7 @@ func genRaw(r *vh.Rand) (raw []byte, entries []string, ok bool) {
 		case 3: // mode beyond 32 bits: uint32() wraps
 			h.b256mode, h.mode = true, int64(1)<<32|int64(modeFor(r, true))
 		case 4: // negative / far mtime
-			h.b256mtime, h.mtime = true, vh.Pick(r, []int64{-5, -86400, 4000000000})
+			h.b256mtime, h.mtime = true, vh.Pick(r, []int64{-5, -86400, 4000000000, -11676096000, 10413792000, 253402300799})
 		case 5: // hard link
 			h.typeflag, h.linkname = '1', vh.Pick(r, []string{root + "/a", "../../out/of", "/etc/passwd"})
 		case 6: // devices, fifo, contiguous, unknown flags
@@ -214,7 +214,7 @@ func genRaw(r *vh.Rand) (raw []byte, entries []string, ok bool) {
 			p := vh.Pick(r, []string{root + "/pax", "/abs/pax", root + "/../up", root + "/a\x00b", "other/pax", root + "/é"})
 			rec := paxRecord("path", p)
 			if r.Chance(1, 4) {
-				rec += paxRecord("mtime", "-3.5")
+				rec += paxRecord("mtime", vh.Pick(r, []string{"-3.5", "10413792000", "-11676096000", "253402300799"}))
 			}
 			hs = append(hs, rawHdr{name: "PaxHeaders/x", typeflag: 'x', mode: 0o644, data: []byte(rec)})
 		case 9: // pax global header (skipped by the reader)
@@ -258,7 +258,7 @@ func genRaw(r *vh.Rand) (raw []byte, entries []string, ok bool) {
 		if !utf8.ValidString(h.Name) || !utf8.ValidString(h.Linkname) || strings.ContainsAny(h.Name+h.Linkname, "\x00") {
 			return nil, nil, false
 		}
-		if t := h.ModTime.Unix(); t > 5000000000 || t < -5000000000 {
+		if t := h.ModTime.Unix(); t > 300000000000 || t < -300000000000 {
 			return nil, nil, false
 		}
 		if h.Typeflag == tar.TypeSymlink && (strings.HasPrefix(h.Linkname, "/") || strings.Count(h.Linkname, "..") > 2) {
@@ -350,10 +350,16 @@ func gen(r *vh.Rand, tier string, n int, emit func(vh.Case)) {
 			root := vh.Pick(r, []string{"root", "r", "a"})
 			var es []string
 			amt := 5000 + 100*a
+			// extreme header times (years 1600, 1677, 1678, 2262, 2263, 2300, 9999: below / above what
+			// UnixNano can represent; archive/tar writes them as PAX records)
+			extreme := []int{-11676096000, -9223372037, -9223372036, -9214560000, 9214646400, 9223372036, 9223372037, 9246182400, 10413792000, 253402300799}
 			tnext := func() int {
 				amt++
 				if r.Chance(1, 12) {
 					return 0
+				}
+				if r.Chance(1, 6) {
+					return vh.Pick(r, extreme)
 				}
 				return amt
 			}
@@ -415,6 +421,12 @@ func gen(r *vh.Rand, tier string, n int, emit func(vh.Case)) {
 					es = append(es, fmt.Sprintf("X,%s", vh.Hex([]byte(name))))
 				}
 				made = append(made, rel)
+			}
+			if r.Chance(1, 4) {
+				// a symlink to an existing outside object, extreme or ordinary time stamp: its mtime is set
+				// on the link itself (utimensat NOFOLLOW), never on what it points to
+				tgt := vh.Pick(r, []string{"/out", "/out/of", "/out/od", "/out/od/f2", "../../out", "../../out/of", "/t"})
+				es = append(es, fmt.Sprintf("L,%s,%s,%o,%d", vh.Hex([]byte(root+"/"+vh.Pick(r, names))), vh.Hex([]byte(tgt)), 0o777, vh.Pick(r, append(extreme, amt+50))))
 			}
 			if r.Chance(1, 4) {
 				// a directory entry replaced by a same-named link / file while still empty
